@@ -293,8 +293,9 @@ def step (sp : Spec) (w : World) : Event → World
             if w.pending.contains (.jobRefresh t) then w else { w with pending := w.pending ++ [.jobRefresh t] }
           else checkAffected sp w t
         else
-          -- RunExistingTask: _run_existing
-          if r.state == .SUCCESS then checkAffected sp w t
+          -- RunExistingTask: _run_existing refuses a succeeded task with a MistralError
+          -- (not a MistralException: it escapes run_task and the transaction rolls back)
+          if r.state == .SUCCESS then w
           else { w with tasks := setTask w.tasks { r with state := .RUNNING, processed := false },
                         pending := w.pending ++ [.postRunAction t] }
     | .rpcResult t ok =>
